@@ -21,7 +21,7 @@ ASSUMPTIONS = ['TT(None) (the documented empty placeholder) has no dense value a
 REQUIRED_REACH = ['_tt_base:TT.__init__', '_tt_base:TT.set_core', '_tt_base:TT.reduce_dims', '_tt_base:TT.__getitem__', '_tt_base:TT.round', '_extras:reshape', '_extras:permute',
                   '_dmrg:dmrg_matvec_python', '_dmrg:dmrg_hadamard_python', '_amen:_amen_mm_python', 'solvers:_amen_solve_python', '_division:amen_divide', 'interpolate:dmrg_cross',
                   'interpolate:function_interpolate', 'manifold:riemannian_projection', '_tt_base:TT.to_qtt', '_tt_base:TT.qtt_to_tens', '_extras:cat', '_extras:pad']
-REQUIRED_COUNTS = {'copy_then_inplace_histories': 100, 'argument_alias_histories': 50, 'wf_checks': 2000, 'quiescent_points': 1000, 'step_returned': 500, 'op:set_core': 5, 'op:reduce_dims': 5}
+REQUIRED_COUNTS = {'copy_then_inplace_histories': 100, 'argument_alias_histories': 50, 'mixed_dtype_histories': 10, 'wf_checks': 2000, 'quiescent_points': 1000, 'step_returned': 500, 'op:set_core': 5, 'op:reduce_dims': 5}
 MIN_NONTRIVIAL = {'quick': 200, 'thorough': 2000}
 CASE_TIMEOUT = {'quick': 240, 'thorough': 600}
 MAX_TIMEOUT_FRACTION = 0.02
@@ -50,6 +50,11 @@ def cases(tier, seed):
         for second in ('same-args-second-object+set_core', 'caller-modifies-argument'):
             for rep in range(3 if not T else 12):
                 cs.append({'gen': 'argalias', 'form': form, 'second': second, 'dtype': ['f64', 'c128', 'f32'][rep % 3]})
+    # directed: operands of DIFFERENT dtypes combined by operations that concatenate core lists (the result must still be one well-formed object of one dtype)
+    for form in ('kron', 'pow', 'rank1TT', 'TT(cores)', 'kron_ttm'):
+        for (da, db) in (('f64', 'c128'), ('c128', 'f64'), ('f32', 'f64'), ('f32', 'c128'), ('c64', 'f64')):
+            for rep in range(1 if not T else 4):
+                cs.append({'gen': 'mixdtype', 'form': form, 'da': da, 'db': db, 'dtype': 'f64'})
     if T:
         cheap = walk.CHEAP_OPS
         for a in cheap:
@@ -139,6 +144,35 @@ def run_argalias(case, ctx, dt):
     ctx.nontrivial(('argalias', form, case['second'], case['dtype']))
 
 
+def run_mixdtype(case, ctx):
+    import torchtt as tt
+    rng = random.Random(case['seed'])
+    g = gens.tgen(case['seed'])
+    da, db = dn.dtype_of(case['da']), dn.dtype_of(case['db'])
+    N1 = [rng.choice((1, 2, 3)) for _ in range(rng.randint(1, 2))]
+    N2 = [rng.choice((2, 3)) for _ in range(rng.randint(1, 2))]
+    form = case['form']
+    if form in ('kron', 'pow'):
+        a, b = gens.make_tt(N1, gens.rank_profile(rng, len(N1), 'rand', 2), da, 'gauss', g), gens.make_tt(N2, gens.rank_profile(rng, len(N2), 'rand', 2), db, 'gauss', g)
+        r = ctx.lib('kron', (lambda p, q: tt.kron(p, q)) if form == 'kron' else (lambda p, q: p ** q), a, b)
+    elif form == 'kron_ttm':
+        a, b = gens.make_tt(N1, gens.rank_profile(rng, len(N1), 'rand', 2), da, 'gauss', g, M=N1), gens.make_tt(N2, gens.rank_profile(rng, len(N2), 'rand', 2), db, 'gauss', g, M=N2)
+        r = ctx.lib('kron', lambda p, q: tt.kron(p, q), a, b)
+    elif form == 'rank1TT':
+        vs = [gens.values([n], da if k % 2 == 0 else db, 'gauss', g) for k, n in enumerate(N1 + N2)]
+        r = ctx.lib('rank1TT', lambda: tt.rank1TT(vs))
+    else:
+        cs_ = gens.make_cores(N1 + N2, gens.rank_profile(rng, len(N1 + N2), 'rand', 2), da, 'gauss', g)
+        cs_ = [c if k % 2 == 0 else c.to(db) for k, c in enumerate(cs_)]
+        r = ctx.lib('TT(cores)', lambda: tt.TT(cs_))
+    ctx.count('mixed_dtype_histories')
+    if isinstance(r, tt.TT):
+        ctx.lib('full', lambda t: t.full(), r)
+        ctx.lib('TT.add', lambda t: t + t, r)
+        ctx.lib('norm', lambda t: t.norm(), r)
+        ctx.nontrivial(('mixdtype', form, case['da'], case['db']))
+
+
 COPIES = ['clone', 'detach', 'cpu', 'to', 'conj', 'neg', 'pos', 'round0', 't_or_slice', 'mul1']
 
 
@@ -188,6 +222,8 @@ def run_case(case, ctx):
         return run_copyhist(case, ctx, dt)
     if case['gen'] == 'argalias':
         return run_argalias(case, ctx, dt)
+    if case['gen'] == 'mixdtype':
+        return run_mixdtype(case, ctx)
     if case['gen'] == 'walk':
         w = walk.Walker(ctx, case['seed'], dt, views=case.get('views', False))
         for _ in range(3):
